@@ -310,7 +310,18 @@ func (e *c19sEnv) shutdown() {
 // ---------------------------------------------------------------------------
 // messages of an exact encoded size
 
+// c19sEncodedSize is the number of bytes the peers' codec produces for msg:
+// proto.Size for the binary codec, the length of the JSON text otherwise.
+// codec "json-stable" is what connect-go sends for a Connect GET request (the
+// codec's MarshalStable, i.e. compacted JSON, so that URLs are cacheable).
 func c19sEncodedSize(codec string, msg proto.Message) int {
+	if codec == "json-stable" {
+		data, err := internal.StrictJSONCodec{}.MarshalStable(msg)
+		if err != nil {
+			panic(err)
+		}
+		return len(data)
+	}
 	if codec == "json" {
 		data, err := internal.StrictJSONCodec{}.Marshal(msg)
 		if err != nil {
@@ -449,6 +460,15 @@ var c19sCompressions = map[string]conformancev1.Compression{ //nolint:gochecknog
 	"snappy":   conformancev1.Compression_COMPRESSION_SNAPPY,
 }
 
+// c19sHTTPMethod: the reference client enables connect.WithHTTPGet, so the
+// side-effect-free IdempotentUnary method travels as GET with the Connect protocol.
+func c19sHTTPMethod(tc c19sCase) string {
+	if tc.Shape == "idempotent-unary" && tc.Protocol == "connect" {
+		return "GET"
+	}
+	return "POST"
+}
+
 func c19sCompatRequest(tc c19sCase, srv *c19sServer, msgs []proto.Message, clientLimit uint32) *conformancev1.ClientCompatRequest {
 	nameHash := fnv.New32a()
 	_, _ = nameHash.Write([]byte(tc.String()))
@@ -483,7 +503,7 @@ func c19sCompatRequest(tc c19sCase, srv *c19sServer, msgs []proto.Message, clien
 	// (server_runner.go); the server verifies it and prints feedback to stderr
 	req.RequestHeaders = []*conformancev1.Header{
 		{Name: "x-expect-http-version", Value: []string{fmt.Sprint(int(req.HttpVersion))}},
-		{Name: "x-expect-http-method", Value: []string{"POST"}},
+		{Name: "x-expect-http-method", Value: []string{c19sHTTPMethod(tc)}},
 		{Name: "x-expect-protocol", Value: []string{fmt.Sprint(int(req.Protocol))}},
 		{Name: "x-expect-codec", Value: []string{fmt.Sprint(int(req.Codec))}},
 		{Name: "x-expect-compression", Value: []string{fmt.Sprint(int(req.Compression))}},
@@ -602,6 +622,10 @@ func c19sServerSide(env *c19sEnv, tc c19sCase) (c19sVerdict, error) {
 		return c19sVerdict{}, err
 	}
 	target := tc.Limit + tc.K
+	reqCodec := tc.Codec
+	if reqCodec == "json" && c19sHTTPMethod(tc) == "GET" {
+		reqCodec = "json-stable"
+	}
 	small := []byte("ok")
 	var msgs []proto.Message
 	var respData [][]byte
@@ -614,18 +638,18 @@ func c19sServerSide(env *c19sEnv, tc c19sCase) (c19sVerdict, error) {
 	if c19sIsStream(tc.Shape) {
 		var first, second proto.Message
 		if tc.Pos == 0 {
-			first = c19sSized(tc.Codec, tc.Shape, true, respData, tc.Pad, target)
+			first = c19sSized(reqCodec, tc.Shape, true, respData, tc.Pad, target)
 			second = c19sRequest(tc.Shape, false, nil, []byte("tail"), "")
 		} else {
 			first = c19sRequest(tc.Shape, true, respData, []byte("head"), "")
-			second = c19sSized(tc.Codec, tc.Shape, false, nil, tc.Pad, target)
+			second = c19sSized(reqCodec, tc.Shape, false, nil, tc.Pad, target)
 		}
 		if first == nil || second == nil {
 			return c19sVerdict{Outcome: "size-unreachable"}, nil
 		}
 		msgs = []proto.Message{first, second}
 	} else {
-		msg := c19sSized(tc.Codec, tc.Shape, true, respData, tc.Pad, target)
+		msg := c19sSized(reqCodec, tc.Shape, true, respData, tc.Pad, target)
 		if msg == nil {
 			return c19sVerdict{Outcome: "size-unreachable"}, nil
 		}
@@ -635,11 +659,11 @@ func c19sServerSide(env *c19sEnv, tc c19sCase) (c19sVerdict, error) {
 	if c19sIsStream(tc.Shape) {
 		critical = msgs[tc.Pos]
 	}
-	if got := c19sEncodedSize(tc.Codec, critical); got != target {
+	if got := c19sEncodedSize(reqCodec, critical); got != target {
 		return c19sVerdict{}, fmt.Errorf("harness: built a message of %d bytes, wanted %d", got, target)
 	}
 	for i, msg := range msgs {
-		if msg != critical && c19sEncodedSize(tc.Codec, msg) >= tc.Limit {
+		if msg != critical && c19sEncodedSize(reqCodec, msg) >= tc.Limit {
 			return c19sVerdict{}, fmt.Errorf("harness: filler message %d is not below the limit", i)
 		}
 	}
@@ -901,14 +925,16 @@ func c19sEnumerate(thorough bool, visit func(tc c19sCase) bool) {
 								continue // HTTP/1.1 can't do full duplex
 							}
 							for _, pad := range pads {
-								if side == "client" && pad == "noise" && limit != 4000 {
+								if side == "client" && pad == "noise" && (limit != 4000 || shape == "idempotent-unary") {
 									// The server echoes the request headers in map-iteration order, so
 									// the compressed form of a response differs from run to run while its
 									// uncompressed size does not. Incompressible data makes the compressed
 									// size hover round the uncompressed one, and whether it ends up above
 									// the limit is then not reproducible - except where the margin is
 									// wide: 4000 noise bytes (snappy stores the chunk raw, +18 bytes; the
-									// other codecs still gain ~100+ bytes on the header text).
+									// other codecs still gain ~100+ bytes on the header text). The
+									// idempotent call travels as a Connect GET, whose response also
+									// echoes the base64 query string: no wide margin there either.
 									continue
 								}
 								for _, k := range ks {
